@@ -358,6 +358,9 @@ def run_property(prop, argv=None):
     ap.add_argument('--seed', type=int, default=int(os.environ.get('VERIF_SEED', '0')))
     ap.add_argument('--no-build', action='store_true')
     args = ap.parse_args(argv)
+    if args.replay:
+        args.replay = os.path.abspath(args.replay if os.path.exists(args.replay)
+                                      else os.path.join(VERIF, args.replay))
     os.environ.setdefault('OPENMDAO_REPORTS', '0')
     try:
         rc = in_tempdir(lambda: _run(prop, args))
